@@ -191,6 +191,23 @@ class Fn:
         self.spec_inserts += 1
         return self
 
+    def after_enclosing_block(self, anchor, text, nth=0):
+        """insert spec text right after the `}` that closes the block containing `anchor`"""
+        ms = _find_all(anchor, self.body)
+        if len(ms) <= nth:
+            raise ExtractError(f"lost anchor in {self.qual}: `{anchor[:60]}` matched {len(ms)}x")
+        i, depth = ms[nth].end(), 0
+        while i < len(self.body):
+            c = self.body[i]
+            if c in '{([':
+                i = match_brace(self.body, i)
+            elif c == '}':
+                break
+            i += 1
+        self.body = self.body[:i + 1] + '\n' + text + '\n' + self.body[i + 1:]
+        self.spec_inserts += 1
+        return self
+
     def at_start(self, text):
         self.body = '{\n' + text + '\n' + self.body[1:]
         self.spec_inserts += 1
